@@ -39,10 +39,10 @@ REPLAY(s_is_top) { sign_t a = mk(wit, "a"); i128 g_x = pt(wit, "g_x"); bool rv =
 REPLAY(s_agree) { return sign_t::bottom().is_bottom() && !sign_t::bottom().is_top() && sign_t::top().is_top() && !sign_t::top().is_bottom(); }
 REPLAY(s_bottom) { return res(sign_t::bottom()) == S_BOT; }
 REPLAY(s_top) { return res(sign_t::top()) == S_TOP; }
-REPLAY(s_ctor_z) { long long c = (long long)wit.u("c.f0.a[0].f0"); printf("  c = %lld\n", c); sign_t r{z_number((int64_t)c)}; uint32_t k = res(r); return POST_ctor_z(k, (i128)c); }
+REPLAY(s_ctor_z) { long long c = (long long)wit.u("c.f0.a.f0"); printf("  c = %lld\n", c); sign_t r{z_number((int64_t)c)}; uint32_t k = res(r); return POST_ctor_z(k, (i128)c); }
 REPLAY(s_ctor_bool) { bool isb = wit.u("isb") != 0; sign_t r(isb); return res(r) == (isb ? S_BOT : S_TOP); }
 /* intervals: bounds rebuilt from the witness (flag, value); membership through the real interval<z_number>::operator[] */
-static bound_t mkb(const Wit &w, const std::string &p) { long long v = (long long)w.u(p + ".f1.f0.a[0].f0"); if (w.u(p + ".f0")) return v > 0 ? bound_t::plus_infinity() : bound_t::minus_infinity(); return bound_t(z_number((int64_t)v)); }
+static bound_t mkb(const Wit &w, const std::string &p) { long long v = (long long)w.u(p + ".f1.f0.a.f0"); if (w.u(p + ".f0")) return v > 0 ? bound_t::plus_infinity() : bound_t::minus_infinity(); return bound_t(z_number((int64_t)v)); }
 REPLAY(s_from_interval) { sign_t a = mk(wit, "a"); i128 g_x = pt(wit, "g_x"); bound_t lb = mkb(wit, "i.f0"), ub = mkb(wit, "i.f1");
   interval_t i = interval_t::bottom(); i._lb = lb; i._ub = ub;       /* raw fields, exactly the witness object */
   crab::outs() << "  i = " << i << "\n"; uint32_t rv = res(a.from_interval(i)); return s_okk(rv) && (!i[zn(g_x)] || s_hask(rv, g_x)); }
